@@ -86,3 +86,158 @@ func VH_C10_map() {
 		v.Assert(got[i] == want, "exactly the entries the map function keeps are reported")
 	}
 }
+
+var mapPatInc = []string{"**/c", "a/b/c", "a/e", "a/d", "**/d", "a/b", "f", "a/e/c"}
+var mapPatExc = []string{"a/b", "**/c", "a/d"}
+
+// VH_C10_mappat: patterns and a map function together, on the concrete tree
+// a/{b/{c}, d, e/{c}}, f: <=1 include and <=1 exclude pattern (literal and "**/x" templates, so
+// directories are reported lazily as ancestors of kept entries) and a map function with a
+// solver-chosen result on every directory and on one solver-chosen file. Asserted: nothing is
+// reported whose own map result is not keep; nothing is reported below a directory for which the
+// map function says skip-dir (however and whenever that directory was consulted); nothing is
+// reported in the rest of a directory after a file for which it says skip-dir; and the reported
+// set equals a reference evaluation (pattern selection by the statement's naive rule, ancestors
+// consulted outermost first when their first kept descendant appears).
+func VH_C10_mappat() {
+	paths := []string{"a", "a/b", "a/b/c", "a/d", "a/e", "a/e/c", "f"}
+	isDir := map[string]bool{"a": true, "a/b": true, "a/e": true}
+	t := &treeFS{}
+	for _, p := range paths {
+		t.ents = append(t.ents, &treeEnt{path: p, isDir: isDir[p], data: []byte("x")})
+	}
+	res := map[string]MapResult{}
+	for _, p := range paths {
+		res[p] = MapResultKeep
+		if isDir[p] {
+			res[p] = MapResult(v.Choose("map-dir", 3))
+		}
+	}
+	files := []string{"a/b/c", "a/d", "a/e/c", "f"}
+	res[files[v.Choose("map-file-at", len(files))]] = MapResult(v.Choose("map-file", 3))
+
+	var incS, excS []string
+	if i := v.Choose("inc", len(mapPatInc)+1); i > 0 {
+		incS = []string{mapPatInc[i-1]}
+	}
+	if i := v.Choose("exc", len(mapPatExc)+1); i > 0 {
+		excS = []string{mapPatExc[i-1]}
+	}
+	var inc, exc []refPattern
+	for _, p := range incS {
+		inc = append(inc, parseRef(p))
+	}
+	for _, p := range excS {
+		exc = append(exc, parseRef(p))
+	}
+	ffs, err := NewFilterFS(t, &FilterOpt{IncludePatterns: incS, ExcludePatterns: excS, Map: func(p string, st *types.Stat) MapResult {
+		return res[p]
+	}})
+	if err != nil {
+		return
+	}
+	got := map[string]bool{}
+	var order []string
+	err = ffs.Walk(context.Background(), "", func(p string, d gofs.DirEntry, err error) error {
+		if err != nil {
+			return err
+		}
+		v.Assert(!got[p], "every entry is reported at most once")
+		got[p] = true
+		order = append(order, p)
+		return nil
+	})
+	v.Assert(err == nil, "walk with patterns and a map function succeeds")
+	for i := 1; i < len(order); i++ {
+		v.Assert(specCmp(order[i-1], order[i]) < 0, "entries are reported in walk order")
+	}
+
+	// soundness clauses
+	for _, p := range paths {
+		if !got[p] {
+			continue
+		}
+		v.Assert(res[p] == MapResultKeep, "an entry the map function drops is not reported")
+		for a := specParent(p); a != ""; a = specParent(a) {
+			if res[a] == MapResultSkipDir {
+				v.Cover("below-skipdir")
+			}
+			v.Assert(res[a] != MapResultSkipDir, "nothing is reported below a directory for which the map function says skip-dir")
+		}
+	}
+
+	// reference evaluation
+	sel := func(p string) bool {
+		return (len(inc) == 0 || refMatchNaive(inc, p)) && !(len(exc) > 0 && refMatchNaive(exc, p))
+	}
+	patterns := len(inc) > 0 || len(exc) > 0
+	want := map[string]bool{}
+	skippedDir := map[string]bool{}
+	restSkipped := map[string]bool{} // directory ("" = root) whose remaining entries are skipped
+	consultedDir := map[string]bool{}
+	for _, p := range paths {
+		skipped := false
+		for a := specParent(p); ; a = specParent(a) {
+			if restSkipped[a] || (a != "" && skippedDir[a]) {
+				skipped = true
+			}
+			if a == "" {
+				break
+			}
+		}
+		if skipped || !sel(p) {
+			continue
+		}
+		dropRest := func() {
+			if isDir[p] {
+				skippedDir[p] = true
+			} else {
+				restSkipped[specParent(p)] = true
+			}
+		}
+		if isDir[p] {
+			consultedDir[p] = true
+		}
+		switch res[p] {
+		case MapResultSkipDir:
+			v.Cover("skipdir")
+			dropRest()
+			continue
+		case MapResultExclude:
+			v.Cover("exclude")
+			continue
+		}
+		dropped := false
+		if patterns {
+			// ancestors not yet reported, outermost first
+			var anc []string
+			for a := specParent(p); a != ""; a = specParent(a) {
+				anc = append([]string{a}, anc...)
+			}
+			for _, a := range anc {
+				if want[a] || consultedDir[a] {
+					continue
+				}
+				if res[a] == MapResultExclude {
+					continue
+				}
+				if res[a] == MapResultSkipDir {
+					v.Cover("lazy-skipdir")
+					skippedDir[a] = true
+					dropRest()
+					dropped = true
+					break
+				}
+				v.Cover("lazy-ancestor")
+				want[a] = true
+			}
+		}
+		if !dropped {
+			want[p] = true
+		}
+	}
+	for _, p := range paths {
+		v.Assert(got[p] == want[p], "the reported set equals the reference evaluation of patterns and map function")
+	}
+	v.Cover("done")
+}
